@@ -45,8 +45,8 @@ def resolve(node, env, depth=0):
 
 class Tr:
     """ Expression translator: atoms are decided by a callback on the (resolved) node """
-    def __init__(self, env, atom, where):
-        self.env = env; self.atom = atom; self.where = where
+    def __init__(self, env, atom, where, generic=False):
+        self.env = env; self.atom = atom; self.where = where; self.generic = generic
 
     def __call__(self, node):
         a = self.atom(node)
@@ -55,6 +55,8 @@ class Tr:
         if isinstance(node, ast.Name) and node.id in self.env:
             return self(resolve(node, self.env))
         if isinstance(node, ast.BinOp):
+            if isinstance(node.op, ast.Pow) and self.generic:
+                return f'(pow {self(node.left)} {self(node.right)})'
             if isinstance(node.op, ast.Pow):
                 e = self.atom(node.right)
                 if e is None and isinstance(node.right, ast.Name):
@@ -69,6 +71,9 @@ class Tr:
         if isinstance(node, ast.UnaryOp) and isinstance(node.op, ast.USub):
             return f'(-{self(node.operand)})'
         if isinstance(node, ast.Constant) and isinstance(node.value, (int, float)) and not isinstance(node.value, bool):
+            if self.generic:
+                if node.value == 1: return '(1 : α)'
+                raise ExtractError(f'{self.where}: constant {node.value!r} not supported in the generic translation')
             return lean_rat(lit_rat(node))
         raise ExtractError(f'{self.where}: unsupported expression `{unparse(node)[:80]}`')
 
@@ -217,7 +222,7 @@ def infect(src):
                 dirs=dirs, skips=skips, dedup=dedup)
 
 
-def net_beta(src, cls):
+def net_beta(src, cls, generic=False):
     fn = src.func(NET, 'net_beta', cls)
     names = [a.arg for a in fn.args.args]
     if names[:3] != ['self', 'disease_beta', 'inds']:
@@ -233,7 +238,39 @@ def net_beta(src, cls):
         if s == 'disease_beta': return 'diseaseBeta'
         if s in ('self.edges.acts[inds] * self.t.dt', 'self.t.dt * self.edges.acts[inds]'): return 'actsDt'
         return None
+    if generic:
+        def gatom(node):
+            s = unparse(node)
+            return {'self.edges.beta[inds]': 'edgeBeta', 'disease_beta': 'diseaseBeta', 'self.edges.acts[inds]': 'acts', 'self.t.dt': 'dt'}.get(s)
+        return Tr(env, gatom, f'{cls}.net_beta', generic=True)(ret[0].value), unparse(ret[0].value)
     return Tr(env, atom, f'{cls}.net_beta')(ret[0].value), unparse(ret[0].value)
+
+
+def outcomes(src):
+    """ Infection.set_outcomes: the congenital predicate and which method gets which part """
+    fn = src.func(DIS, 'set_outcomes', 'Infection')
+    names = [a.arg for a in fn.args.args]
+    if len(names) < 2:
+        raise ExtractError('set_outcomes signature changed')
+    u = names[1]
+    env = local_env(fn)
+    cong = env.get('congenital')
+    if cong is None:
+        raise ExtractError('set_outcomes: `congenital = ...` not found (or assigned twice)')
+    def atom(node):
+        if unparse(node) in (f'sim.people.age[{u}]', f'self.sim.people.age[{u}]'): return 'age'
+        return None
+    pred = tr_compare(cong, Tr({k: v for k, v in env.items() if k != 'congenital'}, atom, 'set_outcomes'), 'set_outcomes')
+    split = []
+    for n in ast.walk(fn):
+        if isinstance(n, ast.Call) and isinstance(n.func, ast.Attribute) and n.func.attr in ('set_congenital', 'set_prognoses') \
+                and unparse(n.func.value) == 'self' and n.args:
+            a = n.args[0]
+            if isinstance(a, ast.Subscript) and unparse(a.value) == u:
+                split.append(f'{n.func.attr}:{unparse(a.slice)}')
+            else:
+                raise ExtractError(f'set_outcomes: `{unparse(n)[:60]}` is not called on a part of the new cases')
+    return pred, unparse(cong), sorted(split)
 
 
 def pool(src):
@@ -321,6 +358,8 @@ def gen(src):
     inf = infect(src)
     plain, plain_src = net_beta(src, 'Network')
     sexual, sexual_src = net_beta(src, 'SexualNetwork')
+    sexual_g, _ = net_beta(src, 'SexualNetwork', generic=True)
+    cong, cong_src, split = outcomes(src)
     dyn = [n for n in src.cls(NET, 'DynamicNetwork').body if isinstance(n, ast.FunctionDef) and n.name == 'net_beta']
     if dyn:
         raise ExtractError('DynamicNetwork now overrides net_beta (not modelled)')
@@ -352,6 +391,15 @@ def netBetaPlain (edgeBeta diseaseBeta : Rat) : Rat :=
 /-- `SexualNetwork.net_beta`: `{sexual_src}` (`actsDt` = acts·dt when that is a whole number) -/
 def netBetaSexual (edgeBeta diseaseBeta : Rat) (actsDt : Nat) : Rat :=
   {sexual}
+/-- `SexualNetwork.net_beta`, the same expression over any number type with a power function (instantiated at `Float` by
+    the model and at `ℝ` by the lemmas; `acts`, `dt` arbitrary) -/
+def netBetaSexualG {{α : Type}} [Mul α] [Sub α] [OfNat α 1] (pow : α → α → α) (edgeBeta diseaseBeta acts dt : α) : α :=
+  {sexual_g}
+/-- `Infection.set_outcomes`: `congenital = {cong_src}` -/
+def isCongenital (age : Rat) : Bool :=
+  {cong}
+/-- `Infection.set_outcomes`: which method receives which part of the new cases -/
+def outcomeSplit : List String := [{', '.join(lean_str(x) for x in split)}]
 /-- `MixingPool.step`: the per-source term averaged by `{pl['trans_src']}` -/
 def poolTransTerm (infectious relTrans : Rat) : Rat :=
   {pl['trans_term']}
@@ -371,5 +419,6 @@ end StarsimModel.Gen
     facts = dict(transmits=cmp_src, kernel_returns=order, eff_trans=inf['eff_trans_src'], eff_sus=inf['eff_sus_src'],
                  directions=[list(d) for d in inf['dirs']], dedup=inf['dedup'], skips_zero_beta=inf['skips'],
                  net_beta_plain=plain_src, net_beta_sexual=sexual_src, pool_p=pl['p_src'], pool_trans=pl['trans_src'],
-                 pool_acq=pl['acq_src'], pool_groups=[pl['trans_group'], pl['acq_group'], pl['filter_group']], bernoulli=bern_src)
+                 pool_acq=pl['acq_src'], pool_groups=[pl['trans_group'], pl['acq_group'], pl['filter_group']], bernoulli=bern_src,
+                 congenital=cong_src, outcome_split=split)
     return body, facts
